@@ -825,7 +825,9 @@ class TypedValue(Value):
         elif isinstance(other, KnownValue):
             can_assign = self_tobj.can_assign(self, other, ctx)
             if isinstance(can_assign, CanAssignError):
-                if self_tobj.is_instance(other.val):
+                # isinstance() against a protocol only tests that the members exist,
+                # so it can't overrule the structural check.
+                if not self_tobj.is_protocol and self_tobj.is_instance(other.val):
                     return {}
             return can_assign
         elif isinstance(other, TypedValue):
